@@ -1,6 +1,7 @@
 import Thanos.Model.StoreSpec
 import Thanos.Lemmas.StoreSpec
 import Thanos.Props.C08
+import Thanos.Generated.Facts
 /-
   C07 — Label name/value APIs cover every label seen by Series.
 
@@ -238,6 +239,21 @@ theorem C07_values_bucket (blocks : List Block) (r : Req) (wf : ∀ b ∈ blocks
         exact hms _ (Or.inr ⟨rfl, hnone⟩)
       · simp only [hcond, if_false, List.isEmpty_cons, Bool.false_eq_true]
         exact hms _ (Or.inl rfl)
+
+/-! ### the two block filters: closed query interval against half-open block ranges, on both calls -/
+
+/-- what `getFor` keeps of one resolution level (`MaxTime <= mint` skips, `MinTime > maxt` ends the scan) is the
+    predicate `overlapsClosedInterval` of the label calls: a block whose MinTime equals the end of the range, or
+    whose MaxTime − 1 equals its start, is looked at by Series and by the label calls alike -/
+theorem overlap_predicates_agree (b : Block) (mint maxt : Int) :
+    blockOverlaps b mint maxt = (!(decide (b.maxt ≤ mint)) && !(decide (b.mint > maxt))) := by
+  unfold blockOverlaps
+  by_cases h1 : b.mint ≤ maxt <;> by_cases h2 : mint < b.maxt <;> simp [h1, h2] <;> omega
+
+/-- regenerated facts: both predicates as the sources have them -/
+theorem C07_fact_overlap :
+    Thanos.Facts.storesOverlapsClosedInterval = "b.meta.MinTime <= maxt && mint < b.meta.MaxTime"
+    ∧ (Thanos.Facts.storesGetForConds.drop 2).take 2 = ["b.meta.MaxTime <= mint", "b.meta.MinTime > maxt"] := by decide
 
 /-! ### the proxy in front of several stores -/
 
